@@ -248,6 +248,13 @@ func c16RouteRun(c c16RouteCase) (out c16RouteOut) {
 				ctx, cancel := context.WithTimeout(context.Background(), c16DupWait)
 				defer cancel()
 				p := accept(i, 'B', s, ctx)
+				if atomic.LoadInt32(&accReturned[i]) == 1 {
+					// the first acceptor is no longer waiting (it cannot have been served by this
+					// scenario's own dial, which starts later): whatever happened to the second one says
+					// nothing about duplicates
+					setClass("dup-first-acceptor-finished-early")
+					return
+				}
 				if p.err == nil {
 					violate("routing:duplicate-accept-not-rejected", fmt.Sprintf("session %d: a second Accept for a secret that already has a waiting acceptor returned a connection", i))
 					return
